@@ -27,7 +27,10 @@ RULE_ADDED = (
               'lier in the script. '
               ' '
               'Round 10: relays of transactions whose cleared form is exactly 65528..131081 byt'
-              'es long. ')
+              'es long. '
+              ' '
+              'Round 12: relays with device chunk requests of 255, 254, 1..200 and random sizes'
+              '. ')
 RULE = RULE + " " + RULE_ADDED.strip()
 ASSUMPTIONS = [
     "comm/bitcoin.py is exercised composed with the bitcoin.core shim in pv/shims "
@@ -260,6 +263,13 @@ def run_shard(spec, acc):
                 s.bus.arm({})
                 dev.reset_sign()
                 acc.count("stack_relays_after_a_failed_sign")
+            # the device asks for the transaction in pieces of its choosing (1..255 bytes)
+            from ..simdev.device import ChunkPolicy
+            dev.chunk = rng.choice([ChunkPolicy("fw", 80), ChunkPolicy("const", 255),
+                                    ChunkPolicy("const", 255), ChunkPolicy("const", 254)] + (
+                [] if i >= spec["n_stack"] else     # (tiny pieces: not for the 100 KB ones)
+                [ChunkPolicy("const", rng.choice([1, 7, 128, 200])),
+                 ChunkPolicy("random", 0, random.Random(rng.getrandbits(32)))]))
             nrec = len(dev.sign_records)
             sw = segwit_args(rng)
             if sw:
